@@ -269,63 +269,201 @@ func safeParse(sql string) (sqlparser.Statement, error) {
 // checkLiteralIdentifiers checks that every backtick-quoted identifier in the
 // given SQL is terminated. The sqlparser tokenizer scans such identifiers
 // without checking for the end of the input, so an unterminated one makes it
-// loop (and allocate) forever. This scan follows the tokenizer's own rules for
-// string literals and comments, inside of which backticks are not special.
+// loop (and allocate) forever. Whether a backtick opens an identifier depends
+// on all the tokens before it (is it inside a string or a comment? does that
+// "--" start a comment or is its first "-" the sign of an exponent?), so this
+// follows sqlparser's Tokenizer.Scan token by token. Where the tokenizer reports
+// a lexical error the parser stops, and so do we.
 func checkLiteralIdentifiers(sql string) error {
 	n := len(sql)
-	for i := 0; i < n; {
-		c := sql[i]
+	// at returns the byte at i, or -1 at the end of the input
+	at := func(i int) int {
+		if i < n {
+			return int(sql[i])
+		}
+		return -1
+	}
+	isLetter := func(c int) bool {
+		return 'a' <= c && c <= 'z' || 'A' <= c && c <= 'Z' || c == '_' || c == '@'
+	}
+	isDigit := func(c int) bool {
+		return '0' <= c && c <= '9'
+	}
+	digitVal := func(c int) int {
 		switch {
-		case c == '\'' || c == '"':
-			// String literal, delimiter is escaped by doubling it or with a backslash
-			closed := false
-			i++
-			for i < n && !closed {
-				ch := sql[i]
-				i++
-				if ch == '\\' {
-					i++
-				} else if ch == c {
-					if i < n && sql[i] == c {
-						i++
-					} else {
-						closed = true
-					}
-				}
-			}
-			if !closed {
-				// tokenizer reports this itself
-				return nil
-			}
-		case c == '`':
-			// The tokenizer consumes the byte after the opening backtick
-			// unconditionally and then scans for the closing backtick.
-			end := -1
-			if i+2 <= n {
-				end = strings.IndexByte(sql[i+2:], '`')
-			}
-			if end < 0 {
-				return ErrUnterminatedIdentifier
-			}
-			i += 2 + end + 1
-		case c == '/' && i+1 < n && sql[i+1] == '*':
-			end := strings.Index(sql[i+2:], "*/")
-			if end < 0 {
-				// tokenizer reports this itself
-				return nil
-			}
-			i += 2 + end + 2
-		case (c == '-' && i+1 < n && sql[i+1] == '-') || (c == '/' && i+1 < n && sql[i+1] == '/'):
-			end := strings.IndexByte(sql[i:], '\n')
-			if end < 0 {
-				return nil
-			}
-			i += end + 1
-		default:
+		case '0' <= c && c <= '9':
+			return c - '0'
+		case 'a' <= c && c <= 'f':
+			return c - 'a' + 10
+		case 'A' <= c && c <= 'F':
+			return c - 'A' + 10
+		}
+		return 16
+	}
+	mantissa := func(i int, base int) int {
+		for digitVal(at(i)) < base {
 			i++
 		}
+		return i
 	}
-	return nil
+	// number mirrors scanNumber, returning the position after the number and
+	// whether it is lexically valid
+	number := func(i int, seenDecimalPoint bool) (int, bool) {
+		if seenDecimalPoint {
+			i = mantissa(i, 10)
+		} else if at(i) == '0' {
+			i++
+			if at(i) == 'x' || at(i) == 'X' {
+				return mantissa(i+1, 16), true
+			}
+			seenDecimalDigit := false
+			i = mantissa(i, 8)
+			if at(i) == '8' || at(i) == '9' {
+				seenDecimalDigit = true
+				i = mantissa(i, 10)
+			}
+			if at(i) != '.' && at(i) != 'e' && at(i) != 'E' {
+				return i, !seenDecimalDigit
+			}
+		} else {
+			i = mantissa(i, 10)
+		}
+		if !seenDecimalPoint && at(i) == '.' {
+			i = mantissa(i+1, 10)
+		}
+		if at(i) == 'e' || at(i) == 'E' {
+			i++
+			if at(i) == '+' || at(i) == '-' {
+				// the sign belongs to the number, "1e--" is 1e- followed by a minus
+				i++
+			}
+			i = mantissa(i, 10)
+		}
+		return i, true
+	}
+	lineComment := func(i int) int {
+		for at(i) >= 0 {
+			i++
+			if sql[i-1] == '\n' {
+				break
+			}
+		}
+		return i
+	}
+
+	for i, first := 0, true; ; first = false {
+		// Scan skips one NUL byte (except at the very start, where it takes the
+		// tokenizer's initial state for one) and then blanks before every token
+		if !first && at(i) == 0 {
+			i++
+		}
+		for at(i) == ' ' || at(i) == '\n' || at(i) == '\r' || at(i) == '\t' {
+			i++
+		}
+		c := at(i)
+		switch {
+		case c < 0:
+			return nil
+		case isLetter(c):
+			for i++; isLetter(at(i)) || isDigit(at(i)); i++ {
+			}
+		case isDigit(c):
+			var ok bool
+			if i, ok = number(i, false); !ok {
+				return nil
+			}
+		case c == ':':
+			// bind variable
+			i++
+			if at(i) == ':' {
+				i++
+			}
+			if !isLetter(at(i)) {
+				return nil
+			}
+			for isLetter(at(i)) || isDigit(at(i)) || at(i) == '.' {
+				i++
+			}
+		default:
+			i++
+			switch c {
+			case '=', ',', ';', '(', ')', '+', '*', '%', '&', '|', '^', '~', '?':
+			case '.':
+				if isDigit(at(i)) {
+					i, _ = number(i, true)
+				}
+			case '/':
+				switch at(i) {
+				case '/':
+					i = lineComment(i + 1)
+				case '*':
+					end := strings.Index(sql[i+1:], "*/")
+					if end < 0 {
+						return nil
+					}
+					i += 1 + end + 2
+				}
+			case '-':
+				if at(i) == '-' {
+					i = lineComment(i + 1)
+				}
+			case '<':
+				switch at(i) {
+				case '>':
+					i++
+				case '=':
+					i++
+					if at(i) == '>' {
+						i++
+					}
+				}
+			case '>':
+				if at(i) == '=' {
+					i++
+				}
+			case '!':
+				if at(i) != '=' {
+					return nil
+				}
+				i++
+			case '\'', '"':
+				// String literal, the delimiter is escaped by doubling it, a
+				// backslash escapes whatever follows it
+				for closed := false; !closed; {
+					ch := at(i)
+					i++
+					switch {
+					case ch < 0:
+						return nil
+					case ch == c:
+						if at(i) == c {
+							i++
+						} else {
+							closed = true
+						}
+					case ch == '\\':
+						if at(i) < 0 {
+							return nil
+						}
+						i++
+					}
+				}
+			case '`':
+				// The tokenizer consumes the byte after the opening backtick
+				// unconditionally and then scans for the closing backtick.
+				end := -1
+				if i < n {
+					end = strings.IndexByte(sql[i+1:], '`')
+				}
+				if end < 0 {
+					return ErrUnterminatedIdentifier
+				}
+				i += 1 + end + 1
+			default:
+				return nil
+			}
+		}
+	}
 }
 
 func parse(stmt *sqlparser.Select) (*Query, error) {
